@@ -12,6 +12,7 @@ PROP = {
              "those before; after a 2xx the probes equal the documented result; a probe during the switch gets the old or the new result, never none. Non-trivial: an injected fault fired, "
              "or the payload carries flow files, or probes ran inside the switch. distinct = canonical JSON of the case"),
     "assumptions": [
+        "after a successful /apply_flows (which replaces the whole configuration) a user metrics file of the old configuration that the payload does not carry must be gone: left on disk it makes the running configuration the new flows with the old metrics. The fault enumeration runs its second payload with such a file in the initial configuration, so that every step of its removal is failed once",
         "a third of the pushed flow revisions (a quarter of the initial flows) carry a processor that needs the request body (DataSanitation): after a successful update the in-process proxy, which keeps the include-body map as the admin calls leave it, must ship the body for the transactions of every such flow of the new configuration - a new flow that runs on the old proxy registration is a half-built configuration",
         "the gateway's log level (LOG_LEVEL: off in three cases of eight, else error / info / debug / trace; what is logged is thrown away, what a log statement does to build its arguments happens) is a generated part of every case of TestConfigurationUpdates: no answer may depend on it; a failing case reports its level",
         "the gateway's server timeout (LUNAR_SERVER_TIMEOUT_SEC) is 1 s in this harness; about one update in thirty is pushed while the proxy is slow (its first five admin calls take 300 ms of real time each), so that the update outlasts the timeout; the state is read after the proxy has been quiet for 500 ms",
